@@ -256,6 +256,10 @@ class Program:
         self._all_funcs = None
         # analysis-time view: small private helpers unknown to the rules are inlined into their callers (vf/inline.py)
         self.inlined = {}
+        self.guards_normalized = 0
+        if not os.environ.get("VF_NO_NORMALIZE"):
+            from . import inline
+            self.guards_normalized = inline.normalize_guards(self)
         if not os.environ.get("VF_NO_INLINE"):
             from . import inline
             self.inlined = inline.apply(self)
